@@ -42,8 +42,16 @@ def judge(data, base, accepted_seq=False):
         return out, 1, None
     full = item_sigs(r7)
     n = 1
-    for mask in range(7):
-        r = run_mask(data, base, mask)
+    # the 8 filtered readers are all constructed first and drained round-robin (live readers must not
+    # influence one another); the reference run above used a reader of its own
+    cfgs = []
+    for mask in range(8):
+        c = dict(base)
+        c["protfilter"] = mask
+        cfgs.append(c)
+    group = streams.run_group(data, cfgs)
+    for mask in range(8):
+        r = group[mask]
         n += 1
         if r.raised is not None:
             out.append((f"raised|mask={mask}|{type(r.raised).__name__}", str(r.raised)))
